@@ -971,6 +971,11 @@ class Terms(object):
         if t[0] in ("tuple", "list") and (len(t) - 1 == n or (
                 n == -1 and i < len(t) - 1)):
             return t[1 + i]
+        if t[0] == "call" and t[1] == ("global", "divmod") and \
+                len(t[2]) == 2 and not t[3] and i in (0, 1) and n in (2, -1):
+            # divmod(a, b) == (a // b, a % b)
+            return self._binop("FloorDiv" if i == 0 else "Mod", t[2][0],
+                               t[2][1])
         return ("comp", t, i)
 
     # -- expressions -----------------------------------------------------------
